@@ -10,8 +10,8 @@ from harness.rowtrace import norm_obs_expr_lit as norm_obs_expr, norm_src_expr_l
 DATASET = {"valid": "people", "reserved_prefix": "__people", "period": "peo.ple", "digit_first": "1people", "space": "peo ple"}
 PROP = {"valid": None, "name": "name", "Label": "Label", "reserved_prefix": "__p", "digit_first": "1p", "space": "p q",
         "inner_dunder": "tree__height", "trailing_dunder": "girth__", "underscore_first": "_a__b"}
-SITE_ROW = {"top": "t1", "group": "t2", "repeat": "t3", "grouprow": "g1", "group_in_repeat": "t4"}
-SITE_PATH = {"top": ["t1"], "group": ["g1", "t2"], "repeat": ["r1", "t3"], "grouprow": ["g1"], "group_in_repeat": ["r1", "g2", "t4"]}
+SITE_ROW = {"top": "t1", "group": "t2", "repeat": "t3", "grouprow": "g1", "group_in_repeat": "t4", "after_inner_repeat": "t6"}
+SITE_PATH = {"top": ["t1"], "group": ["g1", "t2"], "repeat": ["r1", "t3"], "grouprow": ["g1"], "group_in_repeat": ["r1", "g2", "t4"], "after_inner_repeat": ["r1", "t6"]}
 
 
 def build(case):
@@ -34,6 +34,10 @@ def build(case):
         {"type": "begin group", "name": "g2", "label": "G2"},
         {"type": "text", "name": "t4", "label": "T4"},
         {"type": "end group"},
+        {"type": "begin repeat", "name": "r2", "label": "R2"},
+        {"type": "text", "name": "t5", "label": "T5"},
+        {"type": "end repeat"},
+        {"type": "text", "name": "t6", "label": "T6"},
         {"type": "end repeat"},
     ]
     byname = {r.get("name"): r for r in rows}
